@@ -18,7 +18,7 @@ func init() {
 		Explain: "Decides on every path of the mocks package: the mock async producer gives each input message at most one outcome (one send on Successes/Errors per iteration) and the sync producer returns exactly the expectation's result or the partitioner/checker error (C20.one-outcome); expectations are consumed from the head, one per message, len(msgs) for SendMessages (C20.fifo); the partition is the configured partitioner's choice over the configured partition count and is what is stored in / returned for the message (C20.partition); " +
 			"lastOffset is incremented exactly once per success and consumer offsets come from the atomic high-water-mark counter (C20.offsets); every deviation branch reports to the ErrorReporter exactly once and the set of reporting sites is the tabled one (C20.report); expectation state is accessed under the mock's mutex (C20.lock). " +
 			"NOT covered: the behaviour of user-supplied checkers and partitioners, channel capacity effects.",
-		Rules: []func(*Ctx){c20OneOutcome, c20Fifo, c20Partition, c20Offsets, c20Report, c20Lock, c20Atomic, c20OwnConfig, c20ErrLost, c20CloseAll, c20EveryPairStored, c20PartitionerKept},
+		Rules: []func(*Ctx){c20OneOutcome, c20Fifo, c20Partition, c20Offsets, c20Report, c20Lock, c20Atomic, c20OwnConfig, c20ErrLost, c20CloseAll, c20EveryPairStored, c20PartitionerKept, c17Range},
 	})
 }
 
